@@ -10,7 +10,7 @@ ENGINE = 'E1 choice-point explorer: full product on the first channel, deviation
 RULE = ("per (dtype, source kind) shard: full product of byte order x shape {scalar,(R,1),(R,2),(R,3),wider than a "
         "record} x layout {C,F,strided,read-only,view} on the first channel; rows, channel count, second/third channel "
         "attributes, cast, value-palette offset, input chunk, row window, record length and an earlier write of the same objects "
-        "with data of another dtype / other values explored up to the deviation bound from the default; values are bit patterns (extremes, +-0, +-inf, quiet/signalling NaN payloads, denormals); "
+        "with data of another dtype / other values explored up to the deviation bound from the default; plus all sequences of 2..3 channels whose names and explicit / implicit data set names collide (each channel must get its own array); values are bit patterns (extremes, +-0, +-inf, quiet/signalling NaN payloads, denormals); "
         "non-trivial = file written and every row compared bit for bit")
 ASSUMPTIONS = ["strict reader mc/rp66.py", "reference model mc/model.py", "numpy astype defines the result of a "
                "declared cast (float->int and narrowing int casts are outside the alphabet)"]
@@ -39,7 +39,8 @@ SRC = ['inline', 'dict', 'struct', 'h5']
 
 def shards(tier):
     return [{'dtype': d, 'src': s, 'tier': tier} for d in DTYPES for s in SRC] + \
-        [{'dtype': 'uint16', 'src': 'dict', 'many_rows': n} for n in (130, 16390)]
+        [{'dtype': 'uint16', 'src': 'dict', 'many_rows': n} for n in (130, 16390)] + \
+        [{'dtype': 'uint16', 'src': 'inline', 'dsnames': first} for first in range(len(DSN_ALPHABET))]
 
 
 def bound(tier, shard):
@@ -67,7 +68,66 @@ def _channel(ctx, i, dtype, src, rows, vrl, first):
             'cast': cast}
 
 
+# channel name x explicit data set name (None = chosen by the library: NAME, NAME__1, ...)
+DSN_ALPHABET = [(n, d) for n in ('A', 'B') for d in (None, 'A', 'B', 'A__1')]
+
+
+def dsnames(ctx, shard):
+    """2..3 channels whose names and (explicit or implicit) data set names collide in every order; each channel has its
+    own array and its own frame; every channel's rows must be its own array's."""
+    seq = [DSN_ALPHABET[shard['dsnames']], ctx.choose('second', DSN_ALPHABET, free=True)]
+    third = ctx.choose('third', [None] + DSN_ALPHABET, free=True)
+    if third:
+        seq.append(third)
+    src = ctx.choose('src', ['inline', 'dict'], free=True)
+    ops = [S.op_lf(), S.op_origin()]
+    taken, dup = [], False
+    data = {}
+    for i, (name, dn) in enumerate(seq):
+        arr = S.arr_spec('uint16', [2], [1000 * (i + 1), 1000 * (i + 1) + 1])
+        real = dn
+        if dn is None:
+            real, k = name, 0
+            while real in taken:
+                k += 1
+                real = f'{name}__{k}'
+        elif dn in taken:
+            dup = True                  # an explicit name that is already in use: documented to be refused
+        taken.append(real)
+        kw = {'dataset_name': dn} if dn else {}
+        if src == 'inline':
+            kw['data'] = arr
+        else:
+            data[real] = arr
+        ops.append(S.op_add('channel', f'C{i}', name, **kw))
+        ops.append(S.op_add('frame', f'F{i}', f'FRAME-{i}', channels=[{'$ref': f'C{i}'}]))
+        if dup:
+            break
+    sp = {'sul': {'max_record_length': 8192}, 'ops': ops, 'write': {}}
+    if src == 'dict':
+        sp['write']['data'] = {'$datadict': data}
+    res = S.run_spec(sp)
+    raised = res['failed_at'] is not None or res['write'] != 'ok'
+    if dup:
+        viol = [] if raised else [("C03:dsnames:duplicate-explicit-name-accepted", f"{seq}")]
+        return Outcome('dsnames:rejected' if raised else 'dsnames:accepted-duplicate', viol, True, digest=str(raised))
+    if raised:
+        why = res['status'][-1] if res['failed_at'] is not None else res['write']
+        return Outcome('dsnames:raised', [("C03:dsnames:valid-rejected", f"{why} | {seq} {src}")], True, digest=why[:40])
+    viol = []
+    try:
+        lfs = R.split_logical_files(R.parse_physical(res['data']))
+        m = M.Model(sp)
+        for code, d in M.check_rows(m, m.lfs[0], lfs[0]):
+            viol.append((f"C03:dsnames:{code}", f"{d[:200]} | channels (name, data set name) = {seq} source={src}"))
+    except R.FormatError as e:
+        viol.append((f"C03:unparsable:{e.code}", f"{e} | {seq}"))
+    return Outcome('dsnames:ok', viol, True, digest=sha(res['data']))
+
+
 def body(ctx, shard):
+    if 'dsnames' in shard:
+        return dsnames(ctx, shard)
     if shard.get('many_rows'):
         # frame numbers across the 1/2/4-byte UVARI boundaries (127/128, 16383/16384): one row per number
         n = shard['many_rows']
